@@ -56,6 +56,15 @@ func pedits() []pedit {
 	return out
 }
 
+// midOfTo: for edits at the root level the target root refers to the SAME Mid message type as the source root
+// (different root descriptors sharing their sub-descriptors), otherwise to its own copy MidT.
+func midOfTo(e pedit) string {
+	if e.level == "root" {
+		return "Mid"
+	}
+	return "MidT"
+}
+
 func pprogram(e pedit) *pj.Program {
 	ed := func(level string, fs []*pj.Field) []*pj.Field {
 		if e.level == level {
@@ -70,13 +79,19 @@ func pprogram(e pedit) *pj.Program {
 		{Name: "From", Fields: rootFields("Mid")},
 		{Name: "LeafT", Fields: ed("leaf", leafFields())},
 		{Name: "MidT", Fields: ed("mid", midFields("LeafT"))},
-		{Name: "To", Fields: ed("root", rootFields("MidT"))},
+		{Name: "To", Fields: ed("root", rootFields(midOfTo(e)))},
 	}
 	in, out := "From", "To"
 	if e.kind == "identical" {
 		out = "From"
 	}
-	f := &pj.File{Path: "main.proto", Pkg: pj.Pkg, Msgs: msgs, Svcs: []*pj.Service{pj.OneMethodService(in, out)}}
+	svcs := []*pj.Service{pj.OneMethodService(in, out)}
+	if e.level == "root" {
+		// source and target are the REQUEST types of two methods of one service: they are parsed for the same target,
+		// so the Mid / Leaf descriptors below them are the very same objects
+		svcs = []*pj.Service{{Name: "S", Methods: []pj.Method{{Name: "M", In: "From", Out: "Extra"}, {Name: "M2", In: "To", Out: "Extra"}}}}
+	}
+	f := &pj.File{Path: "main.proto", Pkg: pj.Pkg, Msgs: msgs, Svcs: svcs}
 	return &pj.Program{Name: "c11/" + e.name, Main: "main.proto", Files: []*pj.File{f}}
 }
 
@@ -395,7 +410,7 @@ func protoEnumerate(group int, yield func(core.Case) bool) {
 		hi = len(es)
 	}
 	for _, e := range es[lo:hi] {
-		for n := 0; n <= 2; n++ {
+		for _, n := range []int{0, 1, 2, -1, -2} {
 			e, n := e, n
 			c := core.Case{Tag: "proto," + e.kind,
 				Desc: func() interface{} { return pcdesc{e.name, n, 0, pprogram(e).SourceDump()} },
@@ -417,10 +432,45 @@ func protoEnumerate(group int, yield func(core.Case) bool) {
 	}
 }
 
+// addUnknownInside appends two fields no schema of the program declares (90: varint, 91: bytes) to every message
+// below the root (and to the root if top): the cut must drop them at every depth.
+func addUnknownInside(m protoreflect.Message, top bool) {
+	if !top || true {
+		u := append([]byte{}, m.GetUnknown()...)
+		u = append(u, 0xd0, 0x05, 0x07, 0xda, 0x05, 0x03, 'u', 'n', 'k')
+		m.SetUnknown(u)
+	}
+	m.Range(func(fd protoreflect.FieldDescriptor, v protoreflect.Value) bool {
+		switch {
+		case fd.IsMap():
+			if fd.MapValue().Kind() == protoreflect.MessageKind {
+				v.Map().Range(func(k protoreflect.MapKey, e protoreflect.Value) bool { addUnknownInside(e.Message(), false); return true })
+			}
+		case fd.IsList():
+			if fd.Kind() == protoreflect.MessageKind {
+				for i := 0; i < v.List().Len(); i++ {
+					addUnknownInside(v.List().Get(i).Message(), false)
+				}
+			}
+		case fd.Kind() == protoreflect.MessageKind:
+			addUnknownInside(v.Message(), false)
+		}
+		return true
+	})
+}
+
+var unknownInside bool
+
 func runProto(e pedit, n int, blobBytes int) core.Result {
+	if n < 0 {
+		// n = -1 / -2: container size 1 / 2 with unknown fields inside every message
+		unknownInside = true
+		n = -n
+		defer func() { unknownInside = false }()
+	}
 	blobSize = blobBytes
 	defer func() { blobSize = 0 }()
-	r := core.Result{Class: "ok", Key: fmt.Sprintf("proto|%s|%d|%d", e.name, n, blobBytes)}
+	r := core.Result{Class: "ok", Key: fmt.Sprintf("proto|%s|%d|%d|%v", e.name, n, blobBytes, unknownInside)}
 	prog := pprogram(e)
 	c := pj.Compile(prog)
 	if c.Err != nil {
@@ -433,12 +483,28 @@ func runProto(e pedit, n int, blobBytes int) core.Result {
 		toMD = c.Ref.Msg(pj.Pkg + ".To")
 	}
 	src := fillRoot(fromMD, n)
+	if unknownInside {
+		addUnknownInside(src, true)
+	}
 	in := pj.Marshal(src)
 	want := projectPB(src, toMD)
 	var to *dproto.TypeDescriptor = c.Out
+	from := c.In
+	if e.level == "root" {
+		// one parse, two methods: the request descriptors of M and M2 share everything below the root
+		svc, err2 := pj.Dynamicgo(prog, dproto.Options{})
+		if err2 != nil || svc.LookupMethodByName("M") == nil || svc.LookupMethodByName("M2") == nil {
+			r.Add("harness|proto-desc|error", "two-method program: %v", err2)
+			return r
+		}
+		from, to = svc.LookupMethodByName("M").Input(), svc.LookupMethodByName("M2").Input()
+	}
 	trig := fmt.Sprintf("proto,%s,%s", e.kind, e.level)
 	if blobBytes > 0 {
 		trig += ",blob"
+	}
+	if unknownInside {
+		trig += ",unknown-fields-inside"
 	}
 	for _, native := range []bool{false, true} {
 		for _, disallow := range []bool{false, true} {
@@ -446,14 +512,16 @@ func runProto(e pedit, n int, blobBytes int) core.Result {
 			var out []byte
 			var err error
 			pi := core.Catch(func() {
-				v := pgeneric.NewRootValue(c.In, append([]byte{}, in...))
+				v := pgeneric.NewRootValue(from, append([]byte{}, in...))
 				out, err = v.MarshalTo(to, &pgeneric.Options{UseNativeSkip: native, DisallowUnknown: disallow})
 			})
 			switch {
 			case pi != nil:
 				r.Add("proto.Value.MarshalTo|"+trig+"|panic@"+pi.Site+":"+core.PanicClass(pi.Val), "%s: panic %s\n%s", what, pi.Val, pi.Stack)
 			case err != nil:
-				r.Add("proto.Value.MarshalTo|"+trig+"|error", "%s: unexpected error %v", what, err)
+				if !(unknownInside && disallow) {
+					r.Add("proto.Value.MarshalTo|"+trig+"|error", "%s: unexpected error %v", what, err)
+				}
 			default:
 				got, derr := pj.Unmarshal(toMD, out)
 				if derr != nil {
